@@ -16,8 +16,8 @@ they are still detected, but reported under the top-level key "known" instead of
      => good destination sees [1] started, [2] succeeded, [3] eliot:destination_failure  (report AFTER the end)
 
   K2 {"clause":"shape","known":"global-field-overrides-reserved-key"}
-     add_global_fields(timestamp="2020-01-01"); log_message(message_type="m")
-     => Destinations.send applies global fields last, every message carries timestamp "2020-01-01" (not a float).
+     add_global_fields(timestamp="zz"); log_message(message_type="m")
+     => Destinations.send applies global fields last, every message carries timestamp "zz" (not a float).
         (the same happens for task_uuid / task_level, which then break uniqueness; only timestamp is enumerated)
 
   K3 {"clause":"end_at_n","known":"program-logs-into-finished-action"}
@@ -31,6 +31,19 @@ they are still detected, but reported under the top-level key "known" instead of
      with start_action(action_type="p"): with T(x=1): pass
      => the level of the message being serialized is allocated first ([2,1]) but the serializer's message
         ([3]) reaches the destinations before it: emission order != level order inside "p".
+
+How it works.  A scenario is JSON: {"mode": sync|thread|asyncio|gen, "sched": seed of the scheduler, "preempt": p,
+"dests": [failing destinations: {"t":"kind","a":[start|end|msg|tb|report]} | {"t":"mask","a":bits,"n":period} |
+{"t":"file"} (a real FileDestination, fails on unencodable values), "p": before|after the observing destination],
+"globals": global fields, "prog": [ops]}.  Ops: ["msg"|"alog"|"mwrite"|"mlog"|"typed"|"plog", fields], ["tb"],
+["act", {"k": construct, "x": exit, "sf": start fields, "uf": success fields}, body], ["spawn", {"m": bare|preserve|
+taskid, "join": bool}, body].  The interpreter is one `async def` that is driven (a) straight through, (b) on real
+threads that pass a baton at operation boundaries and at seeded `line` trace events inside eliot's own modules,
+(c) as real asyncio tasks released one step at a time by a controller, (d) through
+eliot_friendly_generator_function.  Exactly one worker runs at any time, the choice of the next one comes from the
+seeded scheduler, so every run is reproducible.  The oracle only looks at what the always-accepting destination
+received, plus the driver's own record (kept in plain Python lists, not taken from eliot) of which action each
+worker was inside when the message arrived.
 """
 import argparse, asyncio, contextvars, io, itertools, json, random, sys, threading, time, types, warnings
 
@@ -122,7 +135,7 @@ ACT_KINDS = ["with", "task_with", "typed_with", "typed_task", "log_call", "ctx_t
              "run_then_finish", "run_finish_inside", "manual", "with_then_finish", "with_finish_inside", "continue_same"]
 F1_KINDS = ("ctx_finish_inside", "run_finish_inside", "with_finish_inside")
 EXITS = ["ok", "val", "os", "ext", "badext", "base"]
-MSG_OPS = ["msg", "alog", "mwrite", "mlog", "typed", "tb"]
+MSG_OPS = ["msg", "alog", "mwrite", "mlog", "typed", "tb", "plog"]
 RESERVED = ["timestamp", "task_level", "task_uuid", "action_status", "action_type"]
 
 
@@ -179,7 +192,7 @@ class SchedTimeout(Exception): pass
 class Worker(object):
     def __init__(self, wid, stack):
         self.id = wid; self.stack = list(stack); self.done = False; self.blocked = None; self.noswitch = 0
-        self.gate = None; self.gen = None; self.spec = None; self.initial_park = False; self.thread = None; self.started = False
+        self.handles = []; self.gate = None; self.gen = None; self.spec = None; self.initial_park = False; self.thread = None; self.started = False
 
 
 def top(w):
@@ -356,6 +369,7 @@ class Runner(object):
             return (yield from runner.worker_coro(w).__await__())
         if getattr(self, "_wrapped", None) is None:
             self._wrapped = eliot_friendly_generator_function(gen_original)
+            self._wrapped.debug = bool(self.sc.get("gdebug"))   # logs a "yielded" message at every suspension
         w.gen = self._wrapped(w)
         w.started = True
 
@@ -495,6 +509,14 @@ class Runner(object):
 
     def do_msg(self, w, code, fspec):
         f = build(fspec)
+        if code == "plog":
+            # log into the action enclosing the current one, through its handle
+            if len(w.handles) < 2 or w.handles[-2][1] is None:
+                code = "msg"
+            else:
+                d, a = w.handles[-2]
+                a.log(message_type="M", tag=self.new_tag(construct="plog", parent=d), **f)
+                return
         t = self.new_tag(construct=code, parent=top(w))
         if code == "msg":
             log_message(message_type="M", tag=t, **f)
@@ -538,7 +560,7 @@ class Runner(object):
 
         async def body_in_context(a, finish_inside=False):
             # runs while `a` is the current eliot action; the driver's own idea of the context is w.stack
-            w.stack.append(("tag", t))
+            w.stack.append(("tag", t)); w.handles.append((("tag", t), current_action()))
             try:
                 try:
                     await self.run_ops(w, body)
@@ -554,7 +576,7 @@ class Runner(object):
                     if finish_inside:
                         a.finish()
             finally:
-                w.stack.pop()
+                w.stack.pop(); w.handles.pop()
 
         def sync_body(a, finish_inside=False):
             w.noswitch += sync_region
@@ -646,7 +668,6 @@ class Runner(object):
         D = Logger._destinations
         saved_registry = dict(_error_extraction.registry)
         saved_globals = dict(D._globalFields)
-        saved_debug = getattr(eliot_friendly_generator_function, "debug", None)
         added = []
         try:
             _error_extraction.registry[ExtErr] = _good_extractor
@@ -812,9 +833,9 @@ class Runner(object):
                     else:
                         place(info["parent"], u, lv[:-2] if len(lv) >= 2 else None, "start", idx, snap, lv)
             elif k != "end":
-                if info is not None and info.get("construct") in MSG_OPS and info.get("parent") != exp:
+                if info is not None and info.get("construct") in MSG_OPS and info.get("construct") != "plog" and info.get("parent") != exp:
                     bad({"clause": "crash", "what": "driver"}, "driver bug: context record differs for message #%d" % idx)
-                if info is not None and info.get("construct") == "late":
+                if info is not None and info.get("construct") in ("late", "plog"):
                     exp = info["parent"]
                 own = k == "report" or (k == "tb" and snap.get("reason") != "for traceback") or snap.get("message_type") == "from_serializer"
                 place(exp, u, lv[:-1], "report" if own else k, idx, snap, lv, relaxed=own)
@@ -1034,6 +1055,8 @@ def random_scenarios(rng, count, mode, depth, maxops, p_act=0.45, family="random
             sc["preempt"] = rng.choice([0.02, 0.05, 0.15])
         if rng.random() < 0.1:
             sc["globals"] = [["host", "s"]]
+        if mode == "gen" and rng.random() < 0.5:
+            sc["gdebug"] = True
         if mode != "sync" and sc["prog"][0][0] != "act":
             # concurrency wants a shared parent: wrap in a top-level action half of the time
             if rng.random() < 0.5:
@@ -1053,7 +1076,7 @@ def scenarios():
     yield from exhaustive_constructs()
     yield from exhaustive_collisions()
     depth = 3 if quick else 4
-    counts = {"sync": 4000, "thread": 600, "asyncio": 1000, "gen": 1000} if quick else {"sync": 60000, "thread": 9000, "asyncio": 14000, "gen": 14000}
+    counts = {"sync": 4000, "thread": 600, "asyncio": 1000, "gen": 1000} if quick else {"sync": 40000, "thread": 3000, "asyncio": 10000, "gen": 10000}
     for mode in ("sync", "thread", "asyncio", "gen"):
         yield from random_scenarios(rng, counts[mode], mode, depth, 3 if quick else 4)
         yield from random_scenarios(rng, counts[mode] // 8, mode, 6 if quick else 8, 2, 0.7, "random_deep")
@@ -1076,7 +1099,7 @@ def main():
         if nontrivial(sc):
             seen.add(json.dumps(sc, sort_keys=True))
         try:
-            V = Runner(sc).run()
+            V = contextvars.Context().run(Runner(sc).run)   # a leaked context cannot spill into the next scenario
         except Exception as e:
             import traceback
             traceback.print_exc(file=sys.stderr)
